@@ -23,7 +23,9 @@ import pints  # noqa: E402
 import xarray as xr  # noqa: E402
 
 LIB = os.path.join(os.path.dirname(os.path.abspath(chi.__file__)), 'library', 'model_library')
-REG = dict(dose=2.0, start=0.25, duration=0.25, period=1.0)
+# a FINITE periodic regimen whose last dose (t = 0.75) lies before the latest requested time (1.5): the dose rows of a table are
+# the doses that were given, not one per period up to the final time
+REG = dict(dose=2.0, start=0.25, duration=0.25, period=0.5, num=2)
 
 
 def mech_model(nout, regimen, tag):
@@ -189,7 +191,7 @@ def replay_case(arg):
     if rec['regimen']:
         dose = df[df['Dose'].notna()] if 'Dose' in df.columns else df.iloc[0:0]
         tmax = max(times)
-        exp_times = [REG['start'] + k * REG['period'] for k in range(50) if REG['start'] + k * REG['period'] <= tmax]
+        exp_times = [REG['start'] + k * REG['period'] for k in range(REG['num']) if REG['start'] + k * REG['period'] <= tmax]
         per_id = kind in ('predictive', 'population')
         n_exp = len(exp_times) * (ns if per_id else 1)
         if len(dose) != n_exp or sorted(set(np.round(dose['Time'].astype(float), 9))) != sorted(set(np.round(exp_times, 9))):
